@@ -46,14 +46,14 @@ Definition jv_fentry (e : fentry) : jv := JL [jfres (f_input e); jfres (f_name e
 Definition run_fans (chips : list kfanchip) : jv :=
   let es := fan_entries chips in
   JL [ JL (map jv_fentry es);
-       jv_outcome jv_fdict (sensors_fans false es);
+       jv_outcome jv_fdict (sensors_fans true es);
        (if forallb kfanchip_ok chips then
           JC "Val" [jv_fdict (present_names (map kfc_name chips) (fun n => spec_fans_of n chips))]
         else jnone);
        jbool (fan_names_readable chips);
-       jv_outcome jv_fdict (sensors_fans true es) ].
+       jv_outcome jv_fdict (sensors_fans false es) ].
 Definition run_fans_raw (es : list fentry) : jv :=
-  JL [ jv_outcome jv_fdict (sensors_fans false es) ].
+  JL [ jv_outcome jv_fdict (sensors_fans true es) ].
 
 Definition jv_battery (b : battery) : jv :=
   JL [jq (bt_percent b); JZ (bt_secsleft b); jopt jbool (bt_plugged b)].
@@ -74,7 +74,7 @@ Definition run_battery (dir_exists : bool) (l : supply) (ac0 ac : kf bool) : jv 
   let chosen := pick_first (batteries l) in
   JL [ JL [JL (map (fun e => JL [JB (fst e); jv_batfiles (snd e)]) (supply_listing l));
            jfres (to_fres k_online ac0); jfres (to_fres k_online ac)];
-       jv_outcome (jopt jv_battery) (sensors_battery false listing (to_fres k_online ac0) (to_fres k_online ac));
+       jv_outcome (jopt jv_battery) (sensors_battery true listing (to_fres k_online ac0) (to_fres k_online ac));
        (if supply_ok l then
           match (if dir_exists then chosen else None) with
           | None => JC "Val" [jnone]
@@ -83,7 +83,7 @@ Definition run_battery (dir_exists : bool) (l : supply) (ac0 ac : kf bool) : jv 
         else jnone);
        match chosen with Some (_, b) => secs_exact b | None => jnone end ].
 Definition run_battery_raw (listing : option (list (bytes * batfiles))) (ac0 ac : fres) : jv :=
-  JL [ jv_outcome (jopt jv_battery) (sensors_battery false listing ac0 ac) ].
+  JL [ jv_outcome (jopt jv_battery) (sensors_battery true listing ac0 ac) ].
 
 Definition jv_freq (f : freq) : jv := JL [jq (fq_cur f); jq (fq_min f); jq (fq_max f)].
 Definition jv_policy (p : policy) : jv :=
@@ -166,7 +166,7 @@ Definition run_stat (ls : list statline) : jv :=
   let st := FC (k_stat ls) in
   JL [ JB (k_stat ls);
        JL [jv_outcome jv_stats (cpu_stats st); jv_outcome jq (boot_time st)];
-       (if forallb statline_ok ls then
+       (if forallb sl_ok ls then
           JL [ (if stat_ok ls then JC "Val" [jv_stats (first_ctxt ls, first_intr ls, first_softirq ls, 0)] else jnone);
                match first_btime ls with Some b => JC "Val" [jq (inject_Z b)] | None => jnone end ]
         else jnone) ].
